@@ -109,11 +109,11 @@ def discharge(ob: Obligation, timeout_ms=10000, use_cvc5=True, hook=None):
     g = ob.goal
     if z3.is_true(z3.simplify(g)) if z3.is_bool(g) else False:
         return dict(verdict='proved', backend='syntactic', ms=0.0)
-    r, s, ms = _check(ob.pc, g, max(1000, timeout_ms // 3), mbqi=False)
+    r, s, ms = _check(ob.pc, g, max(1000, min(5000, timeout_ms // 6)), mbqi=False)
     if r == z3.unsat:
         return dict(verdict='proved', backend='z3(e-matching)', ms=ms)
     ms0 = ms
-    r, s, ms = _check(ob.pc, g, timeout_ms)
+    r, s, ms = _check(ob.pc, g, max(2000, min(10000, timeout_ms // 3)) if use_cvc5 else timeout_ms)     # cvc5 gets the long budget
     ms += ms0
     if r == z3.unsat:
         return dict(verdict='proved', backend='z3', ms=ms)
@@ -142,6 +142,10 @@ def discharge(ob: Obligation, timeout_ms=10000, use_cvc5=True, hook=None):
     if use_cvc5:
         t0 = time.time()
         res = _cvc5(s.to_smt2().replace('(check-sat)', ''), max(1, timeout_ms // 1000))
+        if res != 'unsat':      # last resort: z3 default with the full budget
+            r3, s3, ms3 = _check(ob.pc, g, timeout_ms)
+            if r3 == z3.unsat:
+                return dict(verdict='proved', backend='z3', ms=ms + ms3)
         ms2 = (time.time() - t0) * 1000
         if res == 'unsat':
             return dict(verdict='proved', backend='cvc5', ms=ms + ms2)
